@@ -77,10 +77,12 @@ def load():
 class Builder:
     """typed symbolic values: every leaf is Term("leaf", path, type)"""
 
-    def __init__(self, types, present=lambda path: True, list_len=lambda path: 1, variant=lambda path, n: 0, max_depth=4):
+    def __init__(self, types, present=lambda path: True, list_len=lambda path: 1, variant=lambda path, n: 0, max_depth=4,
+                 empty_ok=lambda path: False):
         self.t = types
         self.present = present
         self.list_len = list_len
+        self.empty_ok = empty_ok      # paths of WRAPPED lists: an empty one is expressible (<Wrapper></Wrapper>) and must survive
         self.variant = variant
         self.max_depth = max_depth
 
@@ -91,17 +93,17 @@ class Builder:
             rec = inner_kind in ("struct", "enum") and (inner in stack or depth >= self.max_depth)
             if self.present(path) and not rec:
                 v = self.build(x, path, depth, stack, from_opt=True)
-                if isinstance(v, ListV) and not v.elems:
-                    return none()     # Some(empty list) is encoded exactly like None (stated as outside the claim)
+                if isinstance(v, ListV) and not v.elems and not self.empty_ok(path):
+                    return none()     # Some(empty flattened list) is encoded exactly like None (stated as outside the claim)
                 return some(v)
             return none()
         if kind == "list":
             inner_kind, inner = self.t.shape(x)
             rec = inner_kind in ("struct", "enum") and (inner in stack or depth >= self.max_depth)
             n = 0 if rec else self.list_len(path)
-            if not from_opt and not rec:
-                # required (non-Option) list members always carry >= 1 element: an empty required list cannot be
-                # expressed on the wire (flattened lists emit nothing) and is outside the validity of S3 documents
+            if not from_opt and not rec and not self.empty_ok(path):
+                # required (non-Option) FLATTENED list members always carry >= 1 element: an empty one cannot be expressed on
+                # the wire (flattened lists emit nothing) and is outside the validity of S3 documents
                 n = max(1, n)
             return ListV([self.build(x, path + (str(i),), depth, stack) for i in range(n)])
         if kind == "struct":
